@@ -406,6 +406,44 @@ theorem ts_numEdges_tombstone_refuted :
   have := h [.edge 10 1 2] [10]
   revert this; decide
 
+/-! ### Degrees / Dimensions -/
+
+/-- `Degrees` = number of `EachAdjacentNode` callbacks. The adjacency map, the triple store and — for outbound /
+inbound — the CSR digraph call back each neighbour once, so their degrees are the number of DISTINCT neighbours
+and agree. (CSR under `both` and projections call back once per incident edge: multiplicity, not judged.) -/
+theorem degrees_eq (ops : List Op) (v : Nat) (d : Dir) :
+    ((AdjMap.build ops).adjacent v d).Nodup ∧ ((TS.build ops).adjacent true v d).Nodup ∧
+    ((AdjMap.build ops).adjacent v d).length = ((TS.build ops).adjacent true v d).length ∧
+    (d ≠ .both → ((Csr.ofOps ops).adjacent v d).Nodup ∧
+      ((Csr.ofOps ops).adjacent v d).length = ((AdjMap.build ops).adjacent v d).length) := by
+  have na := AdjMap.adjacent_nodup (AdjMap.rel_build ops) v d
+  have nt := TS.adjacent_nodup true (TS.build ops) v d
+  refine ⟨na, nt, ?_, ?_⟩
+  · exact length_eq_of_nodup_mem na nt (fun x => (adjmap_adj_eq ops v d x).trans (TS.adjacent_build_spec ops v x d).symm)
+  · intro hd
+    have nc := Csr.adjacent_nodup (CsrB.rel_ofOps ops) v d hd
+    exact ⟨nc, length_eq_of_nodup_mem nc na (fun x => (csr_adj_eq ops v d x).trans (adjmap_adj_eq ops v d x).symm)⟩
+
+/-- `Dimensions(digraph, direction)` = (`NumNodes`, largest row) agrees across the adjacency map, the triple
+store and (outbound / inbound) the CSR digraph, although they enumerate their nodes in different orders. -/
+theorem dimensions_eq (ops : List Op) (d : Dir) :
+    let am := AdjMap.build ops
+    let ts := TS.build ops
+    let csr := Csr.ofOps ops
+    dimensions am.nodes am.numNodes (fun v => am.adjacent v d) = dimensions ts.nodes ts.numNodes (fun v => ts.adjacent true v d) ∧
+    (d ≠ .both → dimensions csr.nodes csr.numNodes (fun v => csr.adjacent v d) = dimensions am.nodes am.numNodes (fun v => am.adjacent v d)) := by
+  intro am ts csr
+  have hn := numNodes_eq ops
+  simp only [dimensions_eq_rowMax]
+  constructor
+  · congr 1
+    · exact hn.2.2.2.2.2.2.1.trans hn.2.2.2.2.2.2.2.1
+    · exact rowMax_congr (fun x => (hn.1.2 x).trans (hn.2.2.1.2 x).symm) (fun x _ => (degrees_eq ops x d).2.2.1)
+  · intro hd
+    congr 1
+    · exact hn.2.2.2.2.2.2.1.symm
+    · exact rowMax_congr (fun x => (hn.2.1.2 x).trans (hn.1.2 x).symm) (fun x _ => ((degrees_eq ops x d).2.2.2 hd).2)
+
 /-- C14 at full strength for a given version of the code: every container presents the ground truth in all
 three directions (triple store with any tombstones, every projection), node counts agree, Reach and BFSTree
 from every container are exact for all three directions, Normalize is an isomorphism, segments round-trip. -/
@@ -521,6 +559,8 @@ example : statelessBFS true (fun n => (tsOf demoOps []).adjacentEdges n .out) .o
 example : tsTraverse true true (fun n => (tsOf demoOps []).adjacentEdges n .out) .out (fun _ => true) 0 50 7 = none := by decide
 example : (Csr.ofOps demoOps).numEdges = 5 ∧ (tsOf demoOps [104]).numEdges = 6 ∧
           Proj.numEdges ⟨tsOf demoOps [], [5, 77], [100, 999]⟩ = 2 ∧ (AdjMap.build demoOps).numEdges = 5 := by decide
+example : dimensions (AdjMap.build demoOps).nodes (AdjMap.build demoOps).numNodes (fun v => (AdjMap.build demoOps).adjacent v .both) = (5, 3) ∧
+          dimensions (Csr.ofOps demoOps).nodes (Csr.ofOps demoOps).numNodes (fun v => (Csr.ofOps demoOps).adjacent v .both) = (5, 4) := by decide
 -- `IsDist` is not vacuous: 5 is at distance 2 from 7, and not at distance 1
 example : (5 ∈ walkEnds (fun v => (G.ofOps demoOps).adj v .out) 7 2) ∧ ¬ (5 ∈ walkEnds (fun v => (G.ofOps demoOps).adj v .out) 7 1) := by decide
 
